@@ -471,6 +471,10 @@ def check_linear_stats_only(ctx, res, sb, factor, opname, ndim, rtol=1e-9):
                               ("weight", w0 * factor, w1, abs(w0 * factor) + 1e-300)):
         if math.isnan(a):
             continue
+        if name == "variance" and rtol > 1e-9:
+            # statistics degraded to float32 by an earlier numpy.float32 factor: sum**2 / weight cancels (and, after
+            # extreme factors, under-flows) in single precision - the variance read-out is noise, not a verdict
+            continue
         if not (a == b or abs(a - b) <= rtol * scale):
             ctx.violation("C06/statistics-invariant", f"C06/statistics.{name}/{opname}",
                           f"{opname} by {factor!r}: statistics {name} was {a!r}, now {b!r} "
